@@ -11,6 +11,7 @@ import (
 	"reflect"
 	"sort"
 	"strings"
+	"sync"
 
 	"github.com/openconfig/ygot/ygot"
 	"verifharness/model"
@@ -25,6 +26,15 @@ type listSite struct {
 	// such a chain exists (owner is not below a list).
 	conts []*model.FieldInfo
 	reach bool
+
+	markOnce sync.Once
+	mark     *marker
+}
+
+// marker returns the payload leaf used to tell the entries of this list apart (nil if none).
+func (s *listSite) marker(anyKey []model.Val) *marker {
+	s.markOnce.Do(func() { s.mark = findMarker(s.f, anyKey) })
+	return s.mark
 }
 
 func (s *listSite) id() string { return s.v.Name + ":" + s.owner.T.Name() + "." + s.f.Name }
@@ -113,6 +123,35 @@ func (s *listSite) expRoot(owner *model.Node) *model.Node {
 	return root
 }
 
+type methKey struct {
+	t    reflect.Type
+	name string
+}
+
+var (
+	methMu  sync.Mutex
+	methIdx = map[methKey]int{}
+)
+
+// method looks up a method by name (index cached: reflect's MethodByName is slow).
+func method(recv reflect.Value, name string) reflect.Value {
+	k := methKey{recv.Type(), name}
+	methMu.Lock()
+	i, ok := methIdx[k]
+	methMu.Unlock()
+	if !ok {
+		m, found := recv.Type().MethodByName(name)
+		if !found {
+			panic(fmt.Sprintf("HARNESS-BUG: type %s has no method %s", recv.Type(), name))
+		}
+		i = m.Index
+		methMu.Lock()
+		methIdx[k] = i
+		methMu.Unlock()
+	}
+	return recv.Method(i)
+}
+
 // callRes is the result of a reflective method call.
 type callRes struct {
 	out   []reflect.Value
@@ -121,10 +160,7 @@ type callRes struct {
 
 // call invokes method name on recv; a panic of the generated code is captured, not propagated.
 func call(recv reflect.Value, name string, args ...reflect.Value) (res callRes) {
-	m := recv.MethodByName(name)
-	if !m.IsValid() {
-		panic(fmt.Sprintf("HARNESS-BUG: type %s has no method %s", recv.Type(), name))
-	}
+	m := method(recv, name)
 	if m.Type().NumIn() != len(args) {
 		panic(fmt.Sprintf("HARNESS-BUG: method %s.%s takes %d arguments, have %d", recv.Type(), name, m.Type().NumIn(), len(args)))
 	}
@@ -153,11 +189,13 @@ func ptrOf(v reflect.Value) uintptr {
 	return v.Pointer()
 }
 
-// keyArgs builds the per-key-leaf arguments (New<L>(k1, k2 ...)) for method name of recv.
+// keyArgs builds the key arguments for method name of recv: one argument per key leaf
+// (New<L>(k1, k2 ...)), or the key struct when the method takes a single argument for a multi-key list.
 func (s *listSite) keyArgs(recv reflect.Value, name string, key []model.Val) []reflect.Value {
-	m := recv.MethodByName(name)
-	if !m.IsValid() {
-		panic(fmt.Sprintf("HARNESS-BUG: type %s has no method %s", recv.Type(), name))
+	m := method(recv, name)
+	if m.Type().NumIn() == 1 && len(key) > 1 {
+		// map-level Get/Delete of a multi-key ordered map and Rename take the key struct
+		return []reflect.Value{model.GoKey(s.f, key)}
 	}
 	if m.Type().NumIn() != len(key) {
 		panic(fmt.Sprintf("HARNESS-BUG: %s.%s takes %d arguments, list has %d keys", recv.Type(), name, m.Type().NumIn(), len(key)))
@@ -315,4 +353,41 @@ func boolLabel(b bool, yes, no string) string {
 		return yes
 	}
 	return no
+}
+
+// tally counts classes locally for the generator-health assertion (ev.Rec does not expose its
+// histogram). rapid runs the property function on one goroutine, so no locking is needed.
+type tally struct {
+	n int
+	c map[string]int
+}
+
+func newTally() *tally { return &tally{c: map[string]int{}} }
+
+func (tl *tally) add(classes []string) {
+	tl.n++
+	for _, c := range classes {
+		tl.c[c]++
+	}
+}
+
+// require fails the test as INCONCLUSIVE when a class occurred in fewer than the given fraction of
+// the cases. Runs with fewer than minCases cases (replays) are not measured.
+func (tl *tally) require(t interface {
+	Failed() bool
+	Errorf(string, ...interface{})
+}, prop string, minCases int, need map[string]float64) {
+	if t.Failed() || tl.n < minCases {
+		return
+	}
+	var names []string
+	for c := range need {
+		names = append(names, c)
+	}
+	sort.Strings(names)
+	for _, c := range names {
+		if float64(tl.c[c]) < need[c]*float64(tl.n) {
+			t.Errorf("INCONCLUSIVE: %s generator health: class %q occurred in %d of %d cases (need >= %.1f%%)", prop, c, tl.c[c], tl.n, need[c]*100)
+		}
+	}
 }
